@@ -147,7 +147,7 @@ func NewDynamicCallableFunction(
 		return nil, fmt.Errorf("expected dynamic handler to have two returns, one with any type, and one with error type, but got %d return types", returnCount)
 	case parsedHandler.Type().Out(1) != errorReflectType:
 		return nil, fmt.Errorf("expected additional return type to be an error return, but got %s", parsedHandler.Type().Out(1).String())
-	case parsedHandler.Type().Out(0).Kind() != reflect.Interface:
+	case parsedHandler.Type().Out(0) != anyReflectType:
 		return nil, fmt.Errorf("expected 'any' return type for handler, but got %s", parsedHandler.Type().Out(0))
 	}
 	return &CallableFunctionSchema{
@@ -160,6 +160,9 @@ func NewDynamicCallableFunction(
 		DynamicTypeHandler: typeHandler,
 	}, nil
 }
+
+// anyReflectType is the reflected type of `any`.
+var anyReflectType = reflect.TypeOf((*any)(nil)).Elem()
 
 func validateInputTypeCompatibility(
 	inputs []Type,
